@@ -476,6 +476,7 @@ partial def handle (e : Env) (w : Nat) (op : String) (args : List String) (got :
     | some mdl => some { model := mdl, spec := [spec], tags := ["model.mul." ++ v ++ (if e.endom then ".endom" else ".plain")] ++ (if mdl == "err" then ["model.err"] else []) }
     | none => cls spec
   | "eps", [v, p, k, q, m] => do
+    let v := (v.splitOn ".").headD v          -- suffix .p / .q: the result object is an operand; the value is the same
     let p0 ← parsePoint p
     let q ← parsePoint q
     let k ← pI k
